@@ -13,6 +13,7 @@ import XmppModel.Lemmas.IbbCarrier
 import XmppModel.Model.IbbWriteSide
 import XmppModel.Model.IbbFlow
 import XmppModel.Model.IbbWrap
+import XmppModel.Model.IbbWireFlow
 import XmppModel.Model.IbbCloseProbe
 import XmppModel.Lemmas.IbbFlow
 import XmppModel.Lemmas.IbbWriteSide
@@ -1394,6 +1395,79 @@ example :
     (flowRun std ⟨true, 0, [], 4⟩ ops).acked = packetsOf 3 [.write [65, 66, 67], .write [68, 69, 70], .close] ∧
     (flowRun std ⟨true, 0, [], 4⟩ ops).delivered = [65, 66, 67, 68, 69, 70] ∧
     readOut (Ibb.close (flowRun std ⟨true, 0, [], 4⟩ ops).st) 8 = .eof := by decide
+
+/-- the wire level refines the receiver function: whatever the carrier stanza looks like (other
+children around the packet), however the body is serialised and whatever text the seq attribute
+is, the receiver ends in the state `recv` reaches on the abstracted packet and acknowledges in
+exactly the same cases -/
+theorem C15_wire_refines_recv (cd : Codec) (s : RState) (before after : List Nat) (p : BodyPacket) :
+    recvMessage cd s (carrierChildren before after p) =
+      .handled (recvBody cd s p).1 (recvBody cd s p).2 ∧
+    (recvBody cd s p).1 = (recv cd s (absPacket p)).1 ∧
+    ((recvBody cd s p).2 = .ack ↔ (recv cd s (absPacket p)).2 = .ack) := by
+  refine ⟨C15_carrier_handled_like_bare_packet cd s before after p, ?_⟩
+  unfold recvBody recvWire absPacket
+  by_cases hk : (!(p.known && s.live)) = true
+  · rw [if_pos hk]
+    cases hp : parseSeqAttr p.seqAttr with
+    | malformed => simp [recv]
+    | num n => simp only []; unfold recv; simp only [hk, if_true]; simp
+  · rw [if_neg hk]
+    cases hp : parseSeqAttr p.seqAttr with
+    | malformed => simp [recv]
+    | num n => simp
+
+/-- hence a wire-level history IS the flow-control history of its abstraction: same final state, same
+acknowledged packets, same bytes for the reader -/
+theorem C15_wire_run_is_flow_run (cd : Codec) : ∀ (ops : List WOp) (s : RState),
+    (wireRun cd s ops).1 = (flowRun cd s (ops.map WOp.abs)).st ∧
+    (wireRun cd s ops).2.1 = (flowRun cd s (ops.map WOp.abs)).acked ∧
+    (wireRun cd s ops).2.2 = (flowRun cd s (ops.map WOp.abs)).delivered := by
+  intro ops
+  induction ops with
+  | nil => intro s; exact ⟨rfl, rfl, rfl⟩
+  | cons o os ih =>
+    intro s
+    cases o with
+    | stanza b a p =>
+      obtain ⟨h1, h2, h3⟩ := C15_wire_refines_recv cd s b a p
+      have := ih (recvBody cd s p).1
+      simp only [wireRun, h1, List.map_cons, WOp.abs, flowRun]
+      rw [← h2]
+      refine ⟨this.1, ?_, this.2.2⟩
+      by_cases ha : (recvBody cd s p).2 = .ack
+      · simp [ha, h3.mp ha, this.2.1]
+      · have hb : ¬ (recv cd s (absPacket p)).2 = .ack := fun h => ha (h3.mpr h)
+        simp [ha, hb, this.2.1]
+    | read n =>
+      have := ih (Ibb.read s n).1
+      simp only [wireRun, List.map_cons, WOp.abs, flowRun]
+      exact ⟨this.1, this.2.1, by rw [this.2.2]⟩
+    | setMax n bs => simpa [wireRun, WOp.abs, flowRun] using ih (setMax s n bs)
+
+/-- C15_end_to_end_wire: `C15_end_to_end_flow` stated for what actually arrives — carrier stanzas with
+any other children, seq attributes as text, bodies in pieces, in any interleaving with reads and
+limit changes, any buffer limit: if the packets that end up acknowledged are the sender's, the
+reader gets a prefix of the bytes written, all of them after Close, each once, in order -/
+theorem C15_end_to_end_wire (bs maxBuf : Nat) (wops : List SOp) (ops : List WOp)
+    (hacked : (wireRun std ⟨true, 0, [], maxBuf⟩ ops).2.1 = packetsOf bs wops) :
+    let r := wireRun std ⟨true, 0, [], maxBuf⟩ ops
+    (r.2.2 ++ r.1.buf).isPrefixOf (writtenOf false wops) = true ∧
+    (SOp.close ∈ wops → r.2.2 ++ r.1.buf = writtenOf false wops) := by
+  obtain ⟨h1, h2, h3⟩ := C15_wire_run_is_flow_run std ops ⟨true, 0, [], maxBuf⟩
+  have := C15_end_to_end_flow bs maxBuf wops (ops.map WOp.abs) (by rw [← h2]; exact hacked)
+  simp only [] at this ⊢
+  rw [h1, h3]
+  exact ⟨this.1, this.2.1⟩
+
+/-- non-vacuity: packet 0 behind a hint and a thread with its body cut into text + CDATA, a packet
+whose seq attribute is `65536` (refused), packet 1 as the only child; the reader gets `ABCDEF` -/
+example :
+    let ops : List WOp := [.stanza [0, 1] [] ⟨true, [48], [.text [81, 85], .cdata [74, 68]]⟩,
+      .stanza [] [] ⟨true, [54, 53, 53, 51, 54], [.text [90, 88, 90, 112]]⟩,
+      .stanza [] [2] ⟨true, [49], [.text [82, 69, 86, 71]]⟩, .read 8]
+    (wireRun std ⟨true, 0, [], 0⟩ ops).2.1 = packetsOf 3 [.write [65, 66, 67], .write [68, 69, 70], .close] ∧
+    (wireRun std ⟨true, 0, [], 0⟩ ops).2.2 = [65, 66, 67, 68, 69, 70] := by decide
 
 end Composition
 
